@@ -204,8 +204,17 @@ impl<V, G> HnswIndex<V, G> {
             let found =
                 self.search_layer(ctx, &vector, &ep_candidates, self.params.ef_construction, l)?;
 
-            // Select neighbors
-            let neighbors = self.select_neighbors(found.clone(), self.params.m);
+            // Select neighbors. An element that is inserted again (its vector was replaced) is
+            // already part of the graph: it must not link to itself, and it keeps the links it
+            // has, because other elements may be reachable only through them.
+            let mut neighbors = self.select_neighbors(found.clone(), self.params.m + 1);
+            neighbors.retain(|&n| n != id);
+            neighbors.truncate(self.params.m);
+            for old in self.graph_store.get_neighbors(ctx, l, id)? {
+                if old != id && !neighbors.contains(&old) && neighbors.len() < self.params.m * 2 {
+                    neighbors.push(old);
+                }
+            }
 
             // Store bidirectional connections
             self.graph_store
